@@ -13,7 +13,7 @@ use crate::engine::{catch, h64, par_range, run_generated, Ctx, Stats};
 use crate::oracle::vsign::*;
 use crate::repr::M;
 
-pub const RULE: &str = "transfers recorded by a cooperative recording bus (acknowledges requests, silent on data, answers each transfer's state query from a generated verdict list failed/received so that 0, 1, 2 retries and the give-up case occur): configure for all 11 sign types and send_pages with 0..6 pages whose sizes are generated independently of the sign's own size from one chunk (16 bytes) to 4096 chunks (65536 bytes, last offset 65520), contents pseudo-random, addresses across the 16-bit range; also sequences of 2..4 such transfers on ONE Sign object, each judged on its own slice of the transcript. The transcript is parsed attempt by attempt (request+ack, data chunks, count, state query) and each attempt's chunk list must equal, element for element, the list computed from the inputs (per item: offsets 0,16,32,..., <= 16 bytes each, concatenation = the item), the announced count must equal the number of chunks of that attempt, and the state query must come only after the count; the configuration item must equal an independent copy of the type's 16-byte block. Non-trivial = >= 2 pages, or a page size different from the sign's, or >= 1 retry; distinct by hash of the case";
+pub const RULE: &str = "transfers recorded by a cooperative recording bus (acknowledges requests, silent on data, answers each transfer's state query from a generated verdict list failed/received so that 0, 1, 2 retries and the give-up case occur): configure (and configure_if_needed for every state the sign may report to the opening hello) for all 11 sign types and send_pages with 0..6 pages whose sizes are generated independently of the sign's own size from one chunk (16 bytes) to 4096 chunks (65536 bytes, last offset 65520), contents pseudo-random, addresses across the 16-bit range; also sequences of 2..4 such transfers on ONE Sign object, each judged on its own slice of the transcript. The transcript is parsed attempt by attempt (request+ack, data chunks, count, state query) and each attempt's chunk list must equal, element for element, the list computed from the inputs (per item: offsets 0,16,32,..., <= 16 bytes each, concatenation = the item), the announced count must equal the number of chunks of that attempt, and the state query must come only after the count; the configuration item must equal an independent copy of the type's 16-byte block. Non-trivial = >= 2 pages, or a page size different from the sign's, or >= 1 retry; distinct by hash of the case";
 pub const ASSUMPTIONS: &[&str] = &[
     "total chunks per attempt are kept <= 65535 because the count travels in a 16-bit field; beyond that the property is unsatisfiable by any implementation",
     "how many attempts occur is C10/C11's subject; every attempt that does occur is checked",
@@ -32,10 +32,16 @@ pub struct TransferCase {
     /// kind 0 = no reply, 1 = acknowledgement of another operation, 2 = acknowledgement from another address, 3 = a state report
     #[serde(default)]
     pub bad_ack: Option<(usize, u8)>,
+    /// configuration through configure_if_needed; the recorder answers the hello with this state
+    /// (index into table::STATES) from its own address
+    #[serde(default)]
+    pub if_needed_hello: Option<u8>,
 }
 
 struct Recorder {
     own: u16,
+    hello_state: Option<u8>,
+    hellos: usize,
     bad_ack: Option<(usize, u8)>,
     transfer_requests: usize,
     verdicts: Vec<bool>,
@@ -52,7 +58,17 @@ impl SignBus for Recorder {
         }
         let after_count = matches!(self.log.last(), Some((M::Count(_), _)));
         let reply = match &m {
-            M::Hello(_) => Some(M::Report(self.own, S_UNCONFIGURED)),
+            M::Hello(_) => {
+                self.hellos += 1;
+                // the first hello of a configure_if_needed call reports the scripted state; afterwards the reset
+                // dance is answered cooperatively (ready-to-reset after a start-reset, else unconfigured)
+                let after_start_reset = matches!(self.log.last(), Some((M::Req(_, o), _)) if *o == O_START_RESET);
+                match (self.hellos, self.hello_state) {
+                    (1, Some(s)) => Some(M::Report(self.own, s % 13)),
+                    _ if after_start_reset => Some(M::Report(self.own, S_READY_TO_RESET)),
+                    _ => Some(M::Report(self.own, S_UNCONFIGURED)),
+                }
+            }
             M::Req(_, o) => {
                 let mut reply = Some(M::Ack(self.own, *o));
                 if *o == O_RECEIVE_CONFIG || *o == O_RECEIVE_PIXELS {
@@ -104,6 +120,7 @@ fn items_of(c: &TransferCase) -> Vec<Vec<u8>> {
 /// run one transfer operation of `c` on an existing Sign; Err = controller panic
 fn run_op(sign: &Sign, c: &TransferCase, items: &[Vec<u8>]) -> Result<Result<(), String>, String> {
     match &c.pages {
+        None if c.if_needed_hello.is_some() => catch(|| sign.configure_if_needed().map(|_| ()).map_err(|e| format!("{e:?}"))),
         None => catch(|| sign.configure().map(|_| ()).map_err(|e| format!("{e:?}"))),
         Some(sizes) => {
             let pages: Vec<Page<'_>> = sizes
@@ -122,7 +139,7 @@ fn run_op(sign: &Sign, c: &TransferCase, items: &[Vec<u8>]) -> Result<Result<(),
 
 pub fn check_transfer(c: &TransferCase, st: &mut Stats) -> Result<(), String> {
     let (sign_type, _, _, _, _) = TYPES[c.sign_type as usize % 11];
-    let rec = Rc::new(RefCell::new(Recorder { own: c.addr, bad_ack: c.bad_ack, transfer_requests: 0, verdicts: c.verdicts.clone(), attempt: 0, log: vec![], last_transfer_op: 0 }));
+    let rec = Rc::new(RefCell::new(Recorder { own: c.addr, hello_state: c.if_needed_hello, hellos: 0, bad_ack: c.bad_ack, transfer_requests: 0, verdicts: c.verdicts.clone(), attempt: 0, log: vec![], last_transfer_op: 0 }));
     let sign = Sign::new(rec.clone(), Address(c.addr), sign_type);
     let items = items_of(c);
     let total_chunks: usize = items.iter().map(|i| (i.len() + 15) / 16).sum();
@@ -150,7 +167,7 @@ pub fn check_transfer_seq(c: &TransferSeq, st: &mut Stats) -> Result<(), String>
     let first = &c.ops[0];
     let (sign_type, _, _, _, _) = TYPES[first.sign_type as usize % 11];
     let verdicts: Vec<bool> = c.ops.iter().flat_map(|o| o.verdicts.iter().copied()).collect();
-    let rec = Rc::new(RefCell::new(Recorder { own: first.addr, bad_ack: None, transfer_requests: 0, verdicts, attempt: 0, log: vec![], last_transfer_op: 0 }));
+    let rec = Rc::new(RefCell::new(Recorder { own: first.addr, hello_state: None, hellos: 0, bad_ack: None, transfer_requests: 0, verdicts, attempt: 0, log: vec![], last_transfer_op: 0 }));
     let sign = Sign::new(rec.clone(), Address(first.addr), sign_type);
     for (k, op) in c.ops.iter().enumerate() {
         // every operation uses the first one's address and sign type (it is the same Sign object)
@@ -255,6 +272,14 @@ fn judge_slice(c: &TransferCase, items: &[Vec<u8>], log: &[(M, Option<M>)], r: &
         i += 1;
     }
     if attempts == 0 {
+        if c.if_needed_hello.is_some() {
+            // configure_if_needed may decide that nothing is needed; then nothing data-like may have been sent either
+            if let Some((m, _)) = log.iter().find(|(m, _)| matches!(m, M::Data { .. } | M::Count(_))) {
+                return Err(format!("{} was sent although no receive request was made and acknowledged", m.short()));
+            }
+            st.class("configure_if_needed:nothing-transferred");
+            return Ok(());
+        }
         return Err(format!("no transfer attempt was made (result {r:?})"));
     }
     // nothing data-like outside the attempts
@@ -316,7 +341,7 @@ fn case_strategy(max_pages: usize, big: bool) -> impl Strategy<Value = TransferC
         verdict_strategy(),
         prop_oneof![4 => Just(None), 1 => (0usize..3, 0u8..4).prop_map(Some)],
     )
-        .prop_map(|(addr, sign_type, pages, seed, verdicts, bad_ack)| TransferCase { addr, sign_type, pages, seed, verdicts, bad_ack })
+        .prop_map(|(addr, sign_type, pages, seed, verdicts, bad_ack)| TransferCase { addr, sign_type, pages, seed, verdicts, bad_ack, if_needed_hello: None })
 }
 
 pub fn run(ctx: &Ctx) {
@@ -327,10 +352,10 @@ pub fn run(ctx: &Ctx) {
         let own_chunks = (crate::oracle::page::total_len(w, h) / 16) as u16;
         for (vi, v) in verdicts.iter().enumerate() {
             for addr in [0u16, 3, 0xFFFF] {
-                let c = TransferCase { addr, sign_type: t as u8, pages: None, seed: 0, verdicts: v.clone(), bad_ack: None };
+                let c = TransferCase { addr, sign_type: t as u8, pages: None, seed: 0, verdicts: v.clone(), bad_ack: None, if_needed_hello: None };
                 check_transfer(&c, st).map_err(|m| (serde_json::to_value(&c).unwrap(), m))?;
                 for n in 0..=3usize {
-                    let c = TransferCase { addr, sign_type: t as u8, pages: Some(vec![own_chunks; n]), seed: (t * 10 + vi as u64) as u64, verdicts: v.clone(), bad_ack: None };
+                    let c = TransferCase { addr, sign_type: t as u8, pages: Some(vec![own_chunks; n]), seed: (t * 10 + vi as u64) as u64, verdicts: v.clone(), bad_ack: None, if_needed_hello: None };
                     check_transfer(&c, st).map_err(|m| (serde_json::to_value(&c).unwrap(), m))?;
                     // the same transfer with the request of attempt 0 / 1 / 2 not acknowledged, in each of the four ways
                     let c = TransferCase { bad_ack: Some((vi % 3, (n + vi) as u8)), ..c };
@@ -340,6 +365,11 @@ pub fn run(ctx: &Ctx) {
         }
         Ok(())
     });
+    par_range(ctx, "configure-if-needed-hello-states", 11 * 13, |i, st| {
+        let c = TransferCase { addr: 0x0203, sign_type: (i % 11) as u8, pages: None, seed: 0, verdicts: vec![i % 3 != 0, true], bad_ack: None, if_needed_hello: Some((i / 11) as u8) };
+        check_transfer(&c, st).map_err(|m| (serde_json::to_value(&c).unwrap(), m))
+    });
+    ctx.part_done("configure-if-needed-hello-states", true, json!("configure_if_needed for 11 types x the 13 states the sign may report to the opening hello"));
     ctx.part_done("all-types", true, json!("11 types x 4 verdict patterns x 3 addresses x (configure + 0..3 pages of the sign's size)"));
 
     // the 16-bit offset limit: one 65536-byte page, alone and with neighbours
@@ -350,7 +380,7 @@ pub fn run(ctx: &Ctx) {
             2 => vec![1, 4096, 2],
             _ => vec![4095, 4096],
         };
-        let c = TransferCase { addr: 0x0102, sign_type: 5, pages: Some(pages), seed: k, verdicts: vec![k % 2 == 0, true], bad_ack: None };
+        let c = TransferCase { addr: 0x0102, sign_type: 5, pages: Some(pages), seed: k, verdicts: vec![k % 2 == 0, true], bad_ack: None, if_needed_hello: None };
         check_transfer(&c, st).map_err(|m| (serde_json::to_value(&c).unwrap(), m))
     });
     ctx.part_done("offset-limit", true, json!("pages of 4096 chunks (last offset 65520), alone and next to small pages"));
